@@ -53,7 +53,10 @@ Conform == (tid # 0 /\ T(tid).kind = "cache") =>
    (\A k \in DOMAIN T(tid).events :
        LET e == T(tid).events[k] IN
        (e.ev \in Faulty \/ e.ev = "crash") =>   \* ("foreign" events carry no load outcome)
-           (e.load = "nofile" \/ e.load = Load(IF e.ev = "crash" THEN "prefix" ELSE e.ev)))
+           (\/ e.load = "nofile" \/ e.load = Load(IF e.ev = "crash" THEN "prefix" ELSE e.ev)
+            \* hyperscan's checksum does not cover every byte of the body: a flipped byte may be accepted;
+            \* whether the accepted database still behaves the same is the monitor's business (C14.cache.sametokens)
+            \/ (e.ev = "badbody" /\ e.load = "ok")))
    \/ PrintT(<<"DRIFT", tid>>)
 Done == tid # 0 => PrintT(<<"DONE", tid>>)
 =============================================================================
